@@ -661,10 +661,17 @@ func runConfig(cfg childCfg, nConv int, replay []conversation) {
 				break
 			}
 			diff = censusDiff(base, cur)
-			if len(diff) == 0 || time.Since(t0) > 12*time.Second {
+			// what is tied to a connection is released when the server's own timeouts (idle 2 s,
+			// read / write 2 s, tunnel pairing 5 s) have run; the child runs under the race detector on
+			// a machine that may be saturated, so the census waits well beyond their sum - a real leak
+			// stays for ever and is still there at the end of the wait
+			if len(diff) == 0 || time.Since(t0) > 45*time.Second {
 				break
 			}
 			time.Sleep(100 * time.Millisecond)
+		}
+		if len(diff) == 0 && time.Since(t0) > 12*time.Second {
+			run.Count("quiescent-censuses-clean-only-after-12s", 1)
 		}
 		cc.gate.Unlock()
 		if len(diff) > 0 && ch.alive() {
@@ -785,6 +792,6 @@ func main() {
 	}
 	run.ReportRaces()
 	run.Assume("'answers or closes within its timeouts': a hostile connection must be closed by the server within idle/read timeout (2 s) + the fixed 5 s tunnel pairing wait + 13 s slack after its last byte (canary-guarded)")
-	run.Assume("cleanup is judged at quiescent points: all hostile connections of a batch closed, the well-behaved client held back; goroutines, callbacks, UDP registrations, stream reader slots and sockets of the server process must equal the baseline within 12 s")
+	run.Assume("cleanup is judged at quiescent points: all hostile connections of a batch closed, the well-behaved client held back; goroutines, callbacks, UDP registrations, stream reader slots and sockets of the server process must equal the baseline within 45 s")
 	run.Finish(evals.Load(), "hostile conversations = valid conversations (play / record over TCP, UDP, multicast; secure setup; HTTP and WebSocket tunnel handshakes; garbage) with 0..3 mutations out of 26 grammar-aware and byte-level mutators, sent on up to 40 simultaneous connections to a server in a child process, per server configuration, preceded by a deterministic boundary family (track ids, interleaved pairs) and a deterministic multi-connection family (one session driven from two connections that leave in either order); distinct_nontrivial = distinct (configuration, seed, mutation list, status histogram) conversations completed")
 }
